@@ -28,9 +28,13 @@ def errName : Err → String
   | .snapMissing => "snapMissing" | .getOrder => "getOrder" | .getAccount => "getAccount"
   | .endingState => "endingState" | .panicNilLatestTx => "panic" | .other => "other"
 
+/-- the outcome class the harness can tell WITHOUT reading error texts: the four sentinel errors, a panic, or
+just "an error" -/
 def resName : Option Err → String
   | none => "ok"
-  | some e => errName e
+  | some .noOrder => "noOrder" | some .orderExists => "orderExists" | some .noAcct => "noAcct"
+  | some .noPending => "noPending" | some .panicNilLatestTx => "panic"
+  | some _ => "err"
 
 def nats? (sep : Char) (s : String) : Option (List Nat) :=
   (s.splitOn (String.singleton sep)).mapM String.toNat?
